@@ -271,6 +271,32 @@ def run(ctx):
                     if t.kind == "scalar":
                         t.strict = ir.types[t.name].strict
                 exp = canon.canon_ir(v2)
+            if with_additional and rng.random() < 0.6:
+                # a type that only the caller supplies (it is not declared in the document), referred to from the
+                # base definitions or from nothing but an extension block
+                import py_gql.schema as PS
+
+                where = rng.choice(["extension-only", "base", "both"])
+                ser, par, lit = S.strict_scalar_fns("VfInjected")
+                kwargs["additional_types"] = list(kwargs["additional_types"]) + [PS.ScalarType("VfInjected", ser, par, lit)]
+                v2 = copy.deepcopy(v2)
+                inj = S.SType("scalar", "VfInjected", None)
+                inj.strict = True
+                v2.add(inj)
+                q2 = v2.types[v2.query]
+                extra = ""
+                if where in ("base", "both"):
+                    holder = S.SType("object", "VfHolder", None)
+                    holder.fields = [S.SField("held", S.named("VfInjected"))]
+                    v2.add(holder)
+                    q2.fields.append(S.SField("vfHolder", S.named("VfHolder")))
+                    extra += "\ntype VfHolder {\n  held: VfInjected\n}\nextend type %s {\n  vfHolder: VfHolder\n}\n" % v2.query
+                if where in ("extension-only", "both"):
+                    q2.fields.append(S.SField("vfInjected", S.lst(S.named("VfInjected")), [S.SInput("x", S.named("VfInjected"))]))
+                    extra += "\nextend type %s {\n  vfInjected(x: VfInjected): [VfInjected]\n}\n" % v2.query
+                text = text + extra
+                exp = canon.canon_ir(v2)
+                ctx.count("injected_type_not_declared:" + where)
             witness = {"sdl": text, "class": cls, "additional_types": with_additional, "hostile_descriptions": hostile}
             ctx.evaluated()
             ctx.count("builds:" + cls)
